@@ -35,8 +35,9 @@ def same_term(a, b):
 class Ledger(Observer):
     """per-cell expected reward lists for the single-tree algorithms and Zooming"""
 
-    def __init__(self, tag="ledger"):
+    def __init__(self, tag="ledger", compare=True):
         self.tag = tag
+        self.do_compare = compare
 
     def start(self, ctx, cfg, algo, dom):
         self.ctx, self.algo = ctx, algo
@@ -62,7 +63,7 @@ class Ledger(Observer):
 
     def after_pull(self, t, p):
         c = self.cell_of(p)
-        if c is None:
+        if c is None and self.do_compare:
             self.ctx.fail(self.tag + ":point_not_a_representative", "round %d: the returned point is not the representative of any cell / active arm" % t)
         self.pending = c
         self.points.append((t, p, c))
@@ -94,7 +95,8 @@ class Ledger(Observer):
                         self.expect[id(n)] = (n, [])
         for n in self.credited(c):
             self.expect.setdefault(id(n), (n, []))[1].append(r)
-        self.compare(t)
+        if self.do_compare:
+            self.compare(t)
 
     def compare(self, t):
         ctx, tag = self.ctx, self.tag
